@@ -44,6 +44,7 @@ func c14Tables(quick bool) []c14Table {
 		{name: "non-matching", spec: &harness.CompSpec{Items: items("bar")}},
 		{name: "described", spec: &harness.CompSpec{Items: []harness.Comp{{Value: "foo", Desc: "first"}, {Value: "fool", Desc: "second"}}, ByWord: true}},
 		{name: "nospace-dir", spec: &harness.CompSpec{Items: items("foo/", "fob/"), NoSpace: "/", ByWord: true}},
+		{name: "multibyte", spec: &harness.CompSpec{Items: items("éa", "éb", "foo中"), ByWord: true}},
 	}
 	if !quick {
 		t = append(t,
@@ -51,7 +52,6 @@ func c14Tables(quick bool) []c14Table {
 			c14Table{name: "aliased", spec: &harness.CompSpec{Items: []harness.Comp{{Value: "foo", Desc: "same"}, {Value: "fob", Desc: "same"}, {Value: "fox", Desc: "other"}}, ByWord: true}},
 			c14Table{name: "two-tags", spec: &harness.CompSpec{Items: []harness.Comp{{Value: "foo", Tag: "t1"}, {Value: "fob", Tag: "t2"}, {Value: "fox", Tag: "t2"}}, ByWord: true}},
 			c14Table{name: "unfiltered", spec: &harness.CompSpec{Items: items("foo", "bar", "fob")}},
-			c14Table{name: "multibyte", spec: &harness.CompSpec{Items: items("éa", "éb", "foo中"), ByWord: true}},
 		)
 	}
 	return t
